@@ -41,6 +41,7 @@ var (
 	workdir  string
 	universe = c06.Universe()
 	dumpDir  = flag.String("dump", "", "replay only: copy what every run wrote (etc/haproxy) below this directory")
+	mkCorpus = flag.String("mkcorpus", "", "write the hand made corpus cases into this directory and exit")
 )
 
 // input is one oracle case (also the replay format).
@@ -349,11 +350,47 @@ func classify(c ocase, diff []string) string {
 		return "C06/oauth-backend-lookup"
 	}
 	// auth proxy: more external authentication services than ports
+	authURL := false
+	for _, o := range all {
+		if _, ok := annValue(o, "auth-url"); ok {
+			authURL = true
+		}
+	}
 	for _, o := range all {
 		if cm, ok := o.(*api.ConfigMap); ok {
-			if _, ok := cm.Data["auth-proxy"]; ok && (strings.Contains(text, "_auth") || strings.Contains(text, "auth-request") || strings.Contains(text, "auth-intercept")) {
+			if _, ok := cm.Data["auth-proxy"]; ok && authURL {
 				return "C06/auth-proxy-range-exhausted"
 			}
+		}
+	}
+	// one path of a host declared with two match types: the position of the extra map
+	// files, created while the hostnames of the map are visited, decides who answers
+	types := map[string]map[string]bool{}
+	for _, o := range all {
+		if ing, ok := o.(*networking.Ingress); ok {
+			for _, r := range ing.Spec.Rules {
+				if r.HTTP == nil {
+					continue
+				}
+				for _, p := range r.HTTP.Paths {
+					t := "begin"
+					if p.PathType != nil && (*p.PathType == networking.PathTypeExact || *p.PathType == networking.PathTypePrefix) {
+						t = string(*p.PathType)
+					} else if v, ok := annValue(ing, "path-type"); ok {
+						t = v
+					}
+					k := r.Host + " " + p.Path
+					if types[k] == nil {
+						types[k] = map[string]bool{}
+					}
+					types[k][strings.ToLower(t)] = true
+				}
+			}
+		}
+	}
+	for _, ts := range types {
+		if len(ts) > 1 && (strings.Contains(text, "\"backend\"") || strings.Contains(text, "req.backend") || strings.Contains(text, "hostbackend")) {
+			return "C06/map-extra-files-order"
 		}
 	}
 	keys := map[string]bool{}
@@ -413,7 +450,7 @@ func describe(c ocase) string {
 
 func genCase(rng *rand.Rand, i int, withBatch bool) ocase {
 	cfg := world.Full()
-	level := i % 3 // 0: world only, 1 / 2: spiced
+	level := i % 4 // 0: world only, 1 / 2: spiced, 3: dense
 	c := ocase{opts: c06.Opts{WatchWithoutClass: true, DefaultService: "ns1/svc1"}, runs: 6}
 	if i%5 == 4 {
 		c.opts.BackendShards = 3
@@ -434,6 +471,10 @@ func genCase(rng *rand.Rand, i int, withBatch bool) ocase {
 
 func main() {
 	o := hx.Parse()
+	if *mkCorpus != "" {
+		writeHandMade(*mkCorpus)
+		return
+	}
 	workdir = filepath.Join(o.Out, "scratch")
 	os.MkdirAll(workdir, 0o755)
 	defer os.RemoveAll(workdir)
